@@ -663,7 +663,9 @@ func init() {
 		if s, ok := ex.symSprintf(f, a[1]); ok {
 			return s, true
 		}
-		panic(abortf("fmt.Sprintf(%q) with symbolic arguments", f))
+		// messages built from symbolic numbers are opaque text (never parsed by the code under test)
+		ex.noteAssume("fmt.Sprintf with symbolic numeric arguments yields an opaque message string (its format text)")
+		return StrV{S: f}, true
 	})
 	reg("fmt.Sprint", func(ex *Exec, g *G, fn *ssa.Function, a []Value) (Value, bool) {
 		if s, ok := ex.nativeSprintf("", a[0]); ok {
